@@ -287,7 +287,7 @@ Definition mon04P (inp obs : sx) : list Z :=
     let i := sx_nth obs 0 in
     let m0 := pm_quiescent nregions (fold_left pm_event (sx_list (sx_nth i 0)) pm_init) (sx_nat (sx_nth i 1)) in
     let m := fold_left (pm_step nregions) (sx_list (sx_nth obs 1)) m0 in
-    dedupz (pm_viol m).
+    filter (fun c => zmem c (pm_viol m)) [1; 2; 3; 4].
 
 Definition judge04P (inp obs : sx) : sx :=
   let m := run04Ph inp (sx_list (sx_nth obs 1)) in
